@@ -121,7 +121,19 @@ impl Server {
     pub fn stop(&mut self) -> Result<(), String> {
         self.stop.store(true, Ordering::SeqCst);
         let r = match self.handle.take() {
-            Some(h) => h.join().map_err(|_| "listen thread panicked".to_string())?,
+            Some(h) => {
+                // never wait for a listen() that cannot return (a deadlocked acceptor): the
+                // thread is left behind and the caller is told
+                let t0 = Instant::now();
+                while !h.is_finished() && t0.elapsed() < Duration::from_secs(30) {
+                    std::thread::sleep(Duration::from_millis(5));
+                }
+                if h.is_finished() {
+                    h.join().map_err(|_| "listen thread panicked".to_string())?
+                } else {
+                    Err("listen() did not return within 30 s after the stop flag was set".to_string())
+                }
+            }
             None => Ok(()),
         };
         if let Some(d) = self.dir.take() {
